@@ -138,7 +138,10 @@ func propC09(w *World, r *Report) {
 	for _, a := range boundsAssumptions {
 		r.Assumes(a)
 	}
-	RunLosslessFor(w, r, "C09", newBoundsRun(w))
+	br09 := newBoundsRun(w)
+	RunLosslessFor(w, r, "C09", br09)
+	RunNarrowSucc(w, r, cm, br09)
+	RunNarrowSuccControl(r)
 	r.Floor("bigendian/read", 15)
 	r.Floor("mapdet", 4)
 }
